@@ -239,9 +239,11 @@ Section AGG.
           | None => None end
         else BASE e g
       | [Raw t1; col; Raw t3] =>
-        (* byWithoutFilterCol for by (): mapFilter((k,v) -> 0, col) keeps no pair *)
+        (* byWithoutFilterCol for by (): mapFilter((k,v) -> 0, col) keeps no pair (a constant 1 keeps every pair) *)
         if String.eqb sep "" && String.eqb t1 "mapFilter((k,v) -> 0, " && String.eqb t3 ")" then
           match eva agg col g with Some (VMap _) => Some (VMap []) | _ => None end
+        else if String.eqb sep "" && String.eqb t1 "mapFilter((k,v) -> 1, " && String.eqb t3 ")" then
+          match eva agg col g with Some (VMap m) => Some (VMap m) | _ => None end
         else BASE e g
       | _ => BASE e g
       end
